@@ -142,9 +142,15 @@ def _create_derived_functions(
     - combinations of these
     """
 
-    # Create parent-child relationships
+    # Create parent-child relationships. The source column of such an aggregation may
+    # only be available in another time unit (e.g., if `betreuungskost_y` is provided as
+    # data instead of `betreuungskost_m`), so that time conversions of functions and data
+    # columns are potential source columns, too.
     aggregate_by_p_id_functions = _create_aggregate_by_p_id_functions(
-        user_and_internal_functions,
+        {
+            **create_time_conversion_functions(user_and_internal_functions, data_cols),
+            **user_and_internal_functions,
+        },
         aggregate_by_p_id_specs,
         data_cols,
     )
